@@ -36,26 +36,65 @@ static string hx(const string &s) { return vh::hex(s); }
 static string sdec(long long v) { std::ostringstream o; o << v; return o.str(); }
 static string udec(unsigned long long v) { std::ostringstream o; o << v; return o.str(); }
 
+// ---- "dirty target" dimension: every parse entry point that writes into an out-parameter or into
+// the object itself is also run on a target that already holds an earlier, non-default value; the
+// result must depend on the text only (op "dirty <k> <inner case>").
+static bool g_dirty_on = false;
+static unsigned long long g_dirty = 0;
+static ola::DmxBuffer *g_sibling = NULL;
+template <typename T> static T dirty_init() { return g_dirty_on ? static_cast<T>(g_dirty * 0x9e3779b97f4a7c15ULL >> 7 | 1) : 0; }
+static string keep_key(bool unchanged) { return g_dirty_on ? string(";keep=") + (unchanged ? "1" : "0") : string(); }
+// gives the buffer earlier contents by one of the public ways, so that it owns used memory
+static void dirty_dmx(ola::DmxBuffer *b) {
+  if (!g_dirty_on) return;
+  uint8_t fill[512];
+  for (unsigned i = 0; i < 512; i++) fill[i] = static_cast<uint8_t>(1 + (g_dirty + i * 7) % 255);   // never 0
+  switch (g_dirty % 5) {
+    case 0: b->SetFromString("9,9,9,9,9,9,9,9,9,9,9,9,9,9,9,9,9,9,9,9,9,9,9,9,9,9,9,9,9,9,9,9,9,9,9,9,9,9,9,9"); break;
+    case 1: b->Set(fill, 512); break;
+    case 2: b->SetRangeToValue(0, 200, 512); break;
+    case 3: b->Set(fill, 64); b->SetChannel(3, 77); break;
+    default:   // copy-on-write shared with a sibling that stays alive and must not change
+      delete g_sibling;
+      g_sibling = new ola::DmxBuffer(fill, 100);
+      *b = *g_sibling;
+      break;
+  }
+}
+static bool sibling_intact() {
+  if (!g_dirty_on || g_dirty % 5 != 4 || !g_sibling) return true;
+  if (g_sibling->Size() != 100) return false;
+  for (unsigned i = 0; i < 100; i++)
+    if (g_sibling->Get(i) != static_cast<uint8_t>(1 + (g_dirty + i * 7) % 255)) return false;
+  return true;
+}
+static void dirty_bytes(uint8_t *p, unsigned n) {
+  for (unsigned i = 0; i < n; i++) p[i] = g_dirty_on ? static_cast<uint8_t>(0xa5 ^ (g_dirty + 13 * i)) : 0;
+}
+
 template <typename T>
 static string parse_dec(const string &t, bool strict, bool is_signed) {
-  T v = 0;
+  T v = dirty_init<T>();
+  const T v0 = v;
   // StringToIntOrDefault<T> is the second public entry point of every overload
   T dflt = ola::StringToIntOrDefault(t, static_cast<T>(42), strict);
   string od = ";od=" + (is_signed ? sdec(static_cast<long long>(dflt)) : udec(static_cast<unsigned long long>(dflt)));
-  if (!ola::StringToInt(t, &v, strict)) return "ok=0" + od;
+  if (!ola::StringToInt(t, &v, strict)) return "ok=0" + od + keep_key(v == v0);
   return "ok=1;v=" + (is_signed ? sdec(static_cast<long long>(v)) : udec(static_cast<unsigned long long>(v))) + od;
 }
 template <typename T>
 static string parse_hex(const string &t, bool is_signed, const char *ok = "ok", const char *vk = "v") {
-  T v = 0;
-  if (!ola::HexStringToInt(t, &v)) return string(ok) + "=0";
+  T v = dirty_init<T>();
+  const T v0 = v;
+  if (!ola::HexStringToInt(t, &v)) return string(ok) + "=0" + (string(ok) == "ok" ? keep_key(v == v0) : string());
   return string(ok) + "=1;" + vk + "=" +
       (is_signed ? sdec(static_cast<long long>(v)) : udec(static_cast<unsigned long long>(v)));
 }
 template <typename T>
 static string parse_phex(const string &t, bool is_signed, const char *ok = "ok", const char *vk = "v") {
-  T v = 0;
-  if (!ola::PrefixedHexStringToInt(t, &v)) return string(ok) + "=0";
+  T v = dirty_init<T>();
+  const T v0 = v;
+  if (!ola::PrefixedHexStringToInt(t, &v)) return string(ok) + "=0" + (string(ok) == "ok" ? keep_key(v == v0) : string());
   return string(ok) + "=1;" + vk + "=" +
       (is_signed ? sdec(static_cast<long long>(v)) : udec(static_cast<unsigned long long>(v)));
 }
@@ -293,17 +332,20 @@ static string handle(const string &p) {
     }
   }
   if (op == "bool" || op == "boolt") {
-    bool b = false;
+    bool b = g_dirty_on && (g_dirty & 1);
+    const bool b0 = b;
     string t = text_of(a[1]);
     bool ok = op == "bool" ? ola::StringToBool(t, &b) : ola::StringToBoolTolerant(t, &b);
-    return ok ? string("ok=1;v=") + (b ? "1" : "0") : "ok=0";
+    return ok ? string("ok=1;v=") + (b ? "1" : "0") : "ok=0" + keep_key(b == b0);
   }
   if (op == "uid") {
     std::auto_ptr<ola::rdm::UID> u(ola::rdm::UID::FromString(text_of(a[1])));
     if (!u.get()) return "ok=0";
-    string s = u->ToString();
+    ola::rdm::UID target(dirty_init<uint64_t>());   // an existing object that is re-assigned
+    target = *u;
+    string s = target.ToString();
     std::auto_ptr<ola::rdm::UID> back(ola::rdm::UID::FromString(s));
-    return "ok=1;v=" + uid_val(*u) + ";s=" + hx(s) + ";rt=" + (back.get() && *back == *u ? "1" : "0");
+    return "ok=1;v=" + uid_val(target) + ";s=" + hx(s) + ";rt=" + (back.get() && *back == *u ? "1" : "0");
   }
   if (op == "uidv") {
     ola::rdm::UID u(static_cast<uint64_t>(vh::num(a[1])));
@@ -312,17 +354,20 @@ static string handle(const string &p) {
     return "s=" + hx(s) + ";" + (back.get() ? "ok=1;v=" + uid_val(*back) : string("ok=0"));
   }
   if (op == "mac") {
-    ola::network::MACAddress m;
+    uint8_t m0b[ola::network::MACAddress::LENGTH];
+    dirty_bytes(m0b, sizeof(m0b));
+    ola::network::MACAddress m(m0b);
+    const ola::network::MACAddress m0(m0b);
     std::auto_ptr<ola::network::MACAddress> m2(ola::network::MACAddress::FromString(text_of(a[1])));
     if (!ola::network::MACAddress::FromString(text_of(a[1]), &m)) {
-      return m2.get() ? "ok=inconsistent" : "ok=0;ep=1";
+      return m2.get() ? "ok=inconsistent" : "ok=0;ep=1" + keep_key(m == m0);
     }
     // the other entry points: pointer-returning FromString and FromStringOrDie
     bool ep = m2.get() && *m2 == m && ola::network::MACAddress::FromStringOrDie(text_of(a[1])) == m;
     uint8_t b[ola::network::MACAddress::LENGTH];
     m.Get(b);
     string s = m.ToString();
-    ola::network::MACAddress back;
+    ola::network::MACAddress back(m0b);
     bool rt = ola::network::MACAddress::FromString(s, &back) && back == m;
     return "ok=1;v=" + vh::hex(b, sizeof(b)) + ";s=" + hx(s) + ";rt=" + (rt ? "1" : "0") + ";ep=" + (ep ? "1" : "0");
   }
@@ -338,29 +383,45 @@ static string handle(const string &p) {
   }
   if (op == "dmx") {
     ola::DmxBuffer b;
+    dirty_dmx(&b);
     if (!b.SetFromString(text_of(a[1]))) return "ok=0";
+    string sib = g_dirty_on ? string(";sib=") + (sibling_intact() ? "1" : "0") : string();
     string s = b.ToString();
     ola::DmxBuffer back;
+    dirty_dmx(&back);
     back.SetFromString(s);
-    return "d=" + dmx_data(b) + ";s=" + hx(s) + ";rt=" + (back == b ? "1" : "0");
+    return "d=" + dmx_data(b) + ";s=" + hx(s) + ";rt=" + (back == b ? "1" : "0") + sib;
+  }
+  if (op == "dmxseq") {   // several texts into ONE long-lived buffer; the frame after every call
+    ola::DmxBuffer b;
+    string r;
+    for (size_t i = 1; i < a.size(); i++) {
+      if (a[i] == "R") { b.SetRangeToValue(0, 201, 300); r += (i > 1 ? ";" : "") + string("r") + udec(i) + "=1"; continue; }
+      if (a[i] == "S") { uint8_t f[20]; memset(f, 0xee, sizeof(f)); b.Set(f, sizeof(f)); r += (i > 1 ? ";" : "") + string("r") + udec(i) + "=1"; continue; }
+      bool ok = b.SetFromString(text_of(a[i]));
+      r += (i > 1 ? ";" : "") + string("d") + udec(i) + "=" + (ok ? dmx_data(b) : string("fail"));
+    }
+    return r;
   }
   if (op == "dmxv") {
     vector<uint8_t> d = vh::unhex(a[1]);
     ola::DmxBuffer b(d.data(), d.size());
     string s = b.ToString();
     ola::DmxBuffer back;
+    dirty_dmx(&back);
     back.SetFromString(s);
     return "s=" + hx(s) + ";back=" + dmx_data(back);
   }
   if (op == "ip4") {
     string t = text_of(a[1]);
-    ola::network::IPV4Address ip;
+    ola::network::IPV4Address ip(dirty_init<uint32_t>());
+    const ola::network::IPV4Address ip0(ip);
     struct in_addr raw;
     // the bare libc call on the same C string (validates Libc.inet_pton4)
     bool rok = inet_pton(AF_INET, t.c_str(), &raw) == 1;
     string r = string("lraw=") + (rok ? vh::hex(reinterpret_cast<uint8_t*>(&raw), 4) : "none");
     std::auto_ptr<ola::network::IPV4Address> ip2(ola::network::IPV4Address::FromString(t));
-    if (!ola::network::IPV4Address::FromString(t, &ip)) return r + ";ok=0;ep=" + (ip2.get() ? "0" : "1");
+    if (!ola::network::IPV4Address::FromString(t, &ip)) return r + ";ok=0;ep=" + (ip2.get() ? "0" : "1") + keep_key(ip == ip0);
     bool ep = ip2.get() && *ip2 == ip && ola::network::IPV4Address::FromStringOrDie(t) == ip;
     uint32_t v = ip.AsInt();
     return r + ";ok=1;a=" + vh::hex(reinterpret_cast<uint8_t*>(&v), 4) + ";ep=" + (ep ? "1" : "0");
@@ -377,8 +438,9 @@ static string handle(const string &p) {
     return "s=" + hx(s) + ";" + (ok ? "ok=1;a=" + vh::hex(reinterpret_cast<uint8_t*>(&bv), 4) : string("ok=0"));
   }
   if (op == "sa") {
-    ola::network::IPV4SocketAddress sa;
-    if (!ola::network::IPV4SocketAddress::FromString(text_of(a[1]), &sa)) return "ok=0;ep=1";
+    ola::network::IPV4SocketAddress sa(ola::network::IPV4Address(dirty_init<uint32_t>()), dirty_init<uint16_t>());
+    const ola::network::IPV4SocketAddress sa0(sa);
+    if (!ola::network::IPV4SocketAddress::FromString(text_of(a[1]), &sa)) return "ok=0;ep=1" + keep_key(sa == sa0);
     bool ep = ola::network::IPV4SocketAddress::FromStringOrDie(text_of(a[1])) == sa;
     uint32_t v = sa.Host().AsInt();
     string s = sa.ToString();
@@ -404,9 +466,12 @@ static string handle(const string &p) {
     // the bare libc call on the same C string (validates Ipv6.inet_pton6)
     bool rok = inet_pton(AF_INET6, t.c_str(), &raw) == 1;
     string r = string("lraw=") + (rok ? vh::hex(reinterpret_cast<uint8_t*>(&raw), 16) : "none");
-    ola::network::IPV6Address ip;
+    uint8_t i60[16];
+    dirty_bytes(i60, sizeof(i60));
+    ola::network::IPV6Address ip(i60);
+    const ola::network::IPV6Address ip0(i60);
     std::auto_ptr<ola::network::IPV6Address> ip2(ola::network::IPV6Address::FromString(t));
-    if (!ola::network::IPV6Address::FromString(t, &ip)) return r + ";ok=0;ep=" + (ip2.get() ? "0" : "1");
+    if (!ola::network::IPV6Address::FromString(t, &ip)) return r + ";ok=0;ep=" + (ip2.get() ? "0" : "1") + keep_key(ip == ip0);
     bool ep = ip2.get() && *ip2 == ip && ola::network::IPV6Address::FromStringOrDie(t) == ip;
     uint8_t b[16];
     ip.Get(b);
@@ -428,7 +493,10 @@ static string handle(const string &p) {
   }
   if (op == "cid") {
     string t = text_of(a[1]);
-    ola::acn::CID c = ola::acn::CID::FromString(t);
+    uint8_t c0[ola::acn::CID::CID_LENGTH];
+    dirty_bytes(c0, sizeof(c0));
+    ola::acn::CID c = ola::acn::CID::FromData(c0);   // an existing object that is re-assigned
+    c = ola::acn::CID::FromString(t);
     uint8_t b[ola::acn::CID::CID_LENGTH];
     c.Pack(b);
     uuid_t raw;
@@ -467,6 +535,16 @@ static string handle(const string &p) {
       return strm(ola::network::IPV4SocketAddress(ola::network::IPV4Address(v4),
                                                   static_cast<uint16_t>(vh::num(a[8]))), adj, base, fill, w, n, true);
     return "bad-type";
+  }
+  if (op == "dirty") {   // dirty <k> <inner case>: the inner case with every parse target pre-loaded
+    size_t p1 = p.find(' ');
+    size_t p2 = p.find(' ', p1 + 1);
+    g_dirty = vh::num(a[1]);
+    g_dirty_on = true;
+    string r;
+    try { r = handle(p.substr(p2 + 1)); } catch (...) { g_dirty_on = false; throw; }
+    g_dirty_on = false;
+    return r;
   }
   if (op == "thr") return run_threads(vh::num(a[1]), vh::num(a[2]), vh::num(a[3]));
   if (op == "split") {
